@@ -215,6 +215,10 @@ def inline_unknown_helpers(F):
     # closures the rules do not know, when the enclosing code calls them directly (a local helper written as a closure)
     for p, f in F.fns.items():
         if f.kind == "Closure" and closure_key(F, f) not in known_closures and f.raw["body"]["argc"] >= 1:
+            # the query's screen wrapper is known by what it does (it handles a ScreenResult), whatever it captures
+            if closure_key(F, f)[0] == "pocket_db::Store::find_events" and \
+                    any("ScreenResult" in (l.get("ty") or {}).get("s", "") for l in f.raw["body"]["locals"]):
+                continue
             unknown.add(p)
     if not unknown:
         return {}
